@@ -9,20 +9,20 @@ import (
 
 // catalogue of manifests the generator draws from
 var (
-	oNs1 = sysObj{ID: jid{"", "ns1", "", "Namespace"}}
-	oNs2 = sysObj{ID: jid{"", "ns2", "", "Namespace"}}
-	oA   = sysObj{ID: jid{"ns1", "a", "", "ConfigMap"}}
-	oB   = sysObj{ID: jid{"ns1", "b", "", "ConfigMap"}, Deps: []jid{{"ns1", "a", "", "ConfigMap"}}}
-	oC   = sysObj{ID: jid{"ns1", "c", "", "ConfigMap"}, Deps: []jid{{"ns1", "b", "", "ConfigMap"}}}
-	oD   = sysObj{ID: jid{"ns2", "d", "", "ConfigMap"}}
-	oR   = sysObj{ID: jid{"", "sys:r", "rbac.authorization.k8s.io", "ClusterRole"}}
-	oK   = sysObj{ID: jid{"ns1", "k", "", "ConfigMap"}, Keep: true}
-	oL   = sysObj{ID: jid{"ns1", "l", "", "ConfigMap"}, Detach: true}
-	oS   = sysObj{ID: jid{"ns1", "s", "", "Secret"}, Deps: []jid{{"ns1", "k", "", "ConfigMap"}}}
-	oE   = sysObj{ID: jid{"ns2", "e", "", "Secret"}, Deps: []jid{{"ns2", "d", "", "ConfigMap"}, {"", "sys:r", "rbac.authorization.k8s.io", "ClusterRole"}}}
-	oM   = sysObj{ID: jid{"ns1", "m", "", "ConfigMap"}, MutFrom: &jid{"ns1", "a", "", "ConfigMap"}}
+	soNs1 = sysObj{ID: jid{"", "ns1", "", "Namespace"}}
+	soNs2 = sysObj{ID: jid{"", "ns2", "", "Namespace"}}
+	soA   = sysObj{ID: jid{"ns1", "a", "", "ConfigMap"}}
+	soB   = sysObj{ID: jid{"ns1", "b", "", "ConfigMap"}, Deps: []jid{{"ns1", "a", "", "ConfigMap"}}}
+	soC   = sysObj{ID: jid{"ns1", "c", "", "ConfigMap"}, Deps: []jid{{"ns1", "b", "", "ConfigMap"}}}
+	soD   = sysObj{ID: jid{"ns2", "d", "", "ConfigMap"}}
+	soR   = sysObj{ID: jid{"", "sys:r", "rbac.authorization.k8s.io", "ClusterRole"}}
+	soK   = sysObj{ID: jid{"ns1", "k", "", "ConfigMap"}, Keep: true}
+	soL   = sysObj{ID: jid{"ns1", "l", "", "ConfigMap"}, Detach: true}
+	soS   = sysObj{ID: jid{"ns1", "s", "", "Secret"}, Deps: []jid{{"ns1", "k", "", "ConfigMap"}}}
+	soE   = sysObj{ID: jid{"ns2", "e", "", "Secret"}, Deps: []jid{{"ns2", "d", "", "ConfigMap"}, {"", "sys:r", "rbac.authorization.k8s.io", "ClusterRole"}}}
+	soM   = sysObj{ID: jid{"ns1", "m", "", "ConfigMap"}, MutFrom: &jid{"ns1", "a", "", "ConfigMap"}}
 
-	sysCatalogue = []sysObj{oNs1, oNs2, oA, oB, oC, oD, oR, oK, oL, oS, oE, oM}
+	sysCatalogue = []sysObj{soNs1, soNs2, soA, soB, soC, soD, soR, soK, soL, soS, soE, soM}
 )
 
 func sysInvalid(rng *proto.Rng) []sysObj {
@@ -40,7 +40,7 @@ func sysInvalid(rng *proto.Rng) []sysObj {
 	case 5: // external dependency
 		return []sysObj{{ID: jid{"ns1", "ext", "", "ConfigMap"}, Deps: []jid{{"ns1", "absent", "", "ConfigMap"}}}}
 	case 6: // duplicate dependency
-		return []sysObj{{ID: jid{"ns1", "dup", "", "ConfigMap"}, Deps: []jid{{"ns1", "a", "", "ConfigMap"}, {"ns1", "a", "", "ConfigMap"}}}, oA}
+		return []sysObj{{ID: jid{"ns1", "dup", "", "ConfigMap"}, Deps: []jid{{"ns1", "a", "", "ConfigMap"}, {"ns1", "a", "", "ConfigMap"}}}, soA}
 	case 7: // cycle
 		return []sysObj{
 			{ID: jid{"ns1", "x", "", "ConfigMap"}, Deps: []jid{{"ns1", "y", "", "ConfigMap"}}},
@@ -61,9 +61,9 @@ func addObj(objs []sysObj, o sysObj) []sysObj {
 }
 
 func genSysHistory(rng *proto.Rng) sysIn {
-	in := sysIn{Pre: []sysObj{oNs2}}
+	in := sysIn{Pre: []sysObj{soNs2}}
 	if rng.Chance(4, 5) {
-		in.Pre = append(in.Pre, oNs1)
+		in.Pre = append(in.Pre, soNs1)
 	}
 	if rng.Chance(1, 4) {
 		// objects somebody else created: unowned or owned by another inventory
@@ -85,7 +85,7 @@ func genSysHistory(rng *proto.Rng) sysIn {
 			for k := 0; k < n; k++ {
 				o := proto.Pick(rng, sysCatalogue[1:])
 				if rng.Chance(1, 12) {
-					o = oNs1
+					o = soNs1
 				}
 				if rng.Chance(1, 3) {
 					o.Rev = r + 1
@@ -101,7 +101,7 @@ func genSysHistory(rng *proto.Rng) sysIn {
 						}
 					}
 					if o.MutFrom != nil {
-						run.Objs = addObj(run.Objs, oA)
+						run.Objs = addObj(run.Objs, soA)
 					}
 				}
 			}
@@ -177,13 +177,13 @@ func genSysHistory(rng *proto.Rng) sysIn {
 }
 
 func sysHandWritten() []sysIn {
-	pre := []sysObj{oNs1, oNs2}
+	pre := []sysObj{soNs1, soNs2}
 	return []sysIn{
-		{Pre: pre, Runs: []sysRun{{Kind: "apply", Objs: []sysObj{oA, oB}}}},
-		{Pre: pre, Runs: []sysRun{{Kind: "apply", Objs: []sysObj{oA, oB, oC}}, {Kind: "apply", Objs: []sysObj{oA}}, {Kind: "destroy"}}},
-		{Pre: pre, Runs: []sysRun{{Kind: "apply", Objs: []sysObj{oA, oB, oK, oS}}, {Kind: "apply", Objs: []sysObj{oA}, Opts: sysOpts{NoPrune: true}}, {Kind: "apply", Objs: []sysObj{oA}}}},
-		{Pre: pre, Runs: []sysRun{{Kind: "apply", Objs: []sysObj{oK, oS, oL}}, {Kind: "destroy"}}},
-		{Pre: []sysObj{oNs2}, Runs: []sysRun{{Kind: "apply", Objs: []sysObj{oNs1, oA, oB}}, {Kind: "destroy"}}},
+		{Pre: pre, Runs: []sysRun{{Kind: "apply", Objs: []sysObj{soA, soB}}}},
+		{Pre: pre, Runs: []sysRun{{Kind: "apply", Objs: []sysObj{soA, soB, soC}}, {Kind: "apply", Objs: []sysObj{soA}}, {Kind: "destroy"}}},
+		{Pre: pre, Runs: []sysRun{{Kind: "apply", Objs: []sysObj{soA, soB, soK, soS}}, {Kind: "apply", Objs: []sysObj{soA}, Opts: sysOpts{NoPrune: true}}, {Kind: "apply", Objs: []sysObj{soA}}}},
+		{Pre: pre, Runs: []sysRun{{Kind: "apply", Objs: []sysObj{soK, soS, soL}}, {Kind: "destroy"}}},
+		{Pre: []sysObj{soNs2}, Runs: []sysRun{{Kind: "apply", Objs: []sysObj{soNs1, soA, soB}}, {Kind: "destroy"}}},
 	}
 }
 
